@@ -573,21 +573,33 @@ def get_post(c):
     ]
 
 
+def get_ghost(c, st):
+    st.ghost["$mutated"] = z3.K(PyObj, z3.BoolVal(False))
+    st.ghost["$mutated_key"] = z3.Const("mut_key0", z3.ArraySort(PyObj, PyObj))
+    st.ghost["$mutated_val"] = z3.Const("mut_val0", z3.ArraySort(PyObj, PyObj))
+
+
+def nothing_updated_in_place(c):
+    o = z3.Const("any_obj", PyObj)
+    return [("no-array-or-other-object-is-updated-in-place (the placeholder data is a new array)",
+             z3.ForAll([o], z3.Not(z3.Select(c.g("$mutated"), o))))]
+
+
 GET_NOADD = REG.add(Contract(
     "las_items.SectionItems.get", case="str-default,add=False",
     params={"self": SI, "mnemonic": STR, "default": STR, "add": CONST(False)},
     requires=shape,
     ensures=lambda c: get_post(c) + [("without-add-the-section-never-changes", z3.And(View(c).n == View(c, old=True).n,
-                                                                                    View(c).A == View(c, old=True).A))],
-    returns=HI, properties=("C15",), may_raise=[]))
+                                                                                    View(c).A == View(c, old=True).A))] + nothing_updated_in_place(c),
+    ghost_init=get_ghost, returns=HI, properties=("C15",), may_raise=[]))
 
 GET_ADD = REG.add(Contract(
     "las_items.SectionItems.get", case="str-default,add=True",
     params={"self": SI, "mnemonic": STR, "default": STR, "add": CONST(True)},
     requires=lambda c: shape(c) + wf(View(c)) + [("NoClash", noclash(View(c), usefulf(c.a["mnemonic"].t)))],
     ensures=lambda c: get_post(c) + [("absent:appends-exactly-one-item", z3.Implies(
-        nomatch(View(c, old=True), c.a["mnemonic"].t), appended(View(c), View(c, old=True), c.res.t)))],
-    modifies=dict(SEQ_FRAME, mnemonic=None),
+        nomatch(View(c, old=True), c.a["mnemonic"].t), appended(View(c), View(c, old=True), c.res.t)))] + nothing_updated_in_place(c),
+    modifies=dict(SEQ_FRAME, mnemonic=None), ghost_init=get_ghost,
     returns=HI, properties=("C15",)))
 
 
